@@ -1,6 +1,7 @@
 #![allow(dead_code)]
 mod c16ffi;
 mod c18;
+mod c18misc;
 mod c18srv;
 mod c19;
 mod legs;
